@@ -73,7 +73,11 @@ def run(ctx):
             r1.violation(key, "receiver created with something other than its key", s.loc)
     # the map is keyed by the key passed in
     for nm in ("get_receiver", "get_receiver_or_create"):
-        g = prog.fn(MR + "::" + nm)
+        g = prog.funcs.get(MR + "::" + nm)
+        if g is None:
+            if nm == "get_receiver":
+                continue   # optional helper (lookup without creation); its absence is not a finding
+            raise model.AnchorMissing("MultiReceiver::get_receiver_or_create not found")
         gs = Slicer(g.body)
         for s, ai, mut in calls_on_field(prog, MR, "alc_receiver", funcs=[g]):
             m = method_name(s)
@@ -83,7 +87,7 @@ def run(ctx):
                     r1.ok("%s looks up `key`" % nm, "", s.loc)
                 else:
                     r1.violation("%s looks up `key`" % nm, "lookup by %s" % show(s.expr[2][1], 40), s.loc)
-    r1.floor(8, "routing facts")
+    r1.floor(7, "routing facts")
 
     # ---- R2 ----------------------------------------------------------------------------------
     r2 = ctx.rule("C18.R2", "with enable_tsi_filtering, every path in MultiReceiver::push to get_receiver / get_receiver_or_create "
@@ -221,7 +225,50 @@ def run(ctx):
                     r3.ok(key, "Drop notifies on_session_closed for every key", where)
             else:
                 r3.violation(key, "unreviewed removal primitive %s" % m, where)
-    r3.floor(4, "open site + removal sites")
+    # converse: a close event is only sent for a session that existed and was removed - in MultiReceiver::push (close-session
+    # packet) the notification must be dominated by "a receiver was found / removed for this key"
+    pf = prog.fn(MR + "::push")
+    pfl = Flow(pf.body)
+    psl = Slicer(pf.body)
+
+    def existed_fact(fa):
+        (a, t) = fa
+        if a[0] == "variant" and ((a[2] == "Some") == t):
+            txt = show(psl.expand(a[1]), 300)
+            if re.search(r"MultiReceiver::get_receiver\(|HashMap::(remove|get|get_mut|remove_entry)\(&(mut )?self\.alc_receiver", txt):
+                return True
+        if a[0] == "true" and t and re.search(r"HashMap::contains_key\(&self\.alc_receiver", show(psl.expand(a[1]), 300)):
+            return True
+        return False
+
+    def flag_locals():
+        """boolean locals that are set to true only where the session is known to exist (e.g. `remove_session`)"""
+        out = set()
+        for name, defs in psl.var_defs().items():
+            vals = [(proj, e, bb) for (proj, e, bb) in defs if proj == ""]
+            if not vals or not all(e[0] == "const" and isinstance(e[2], bool) for _, e, _ in vals):
+                continue
+            trues = [bb for _, e, bb in vals if e[2] is True]
+            if trues and all(any(existed_fact(x) for x in pfl.facts_at(bb)) for bb in trues):
+                out.add(name)
+        return out
+    flags = flag_locals()
+    closes_in_push = []
+    for cp in prog.with_closures(pf.path):
+        closes_in_push += [c for c in call_sites(prog.funcs[cp], lambda p, c: p == "receiver::multireceiver::MultiReceiverListener::on_session_closed")]
+    for c in closes_in_push:
+        key = "push: on_session_closed only for a session that existed"
+        if c.func.path != pf.path:
+            r3.violation(key, "close notification issued from a closure of push(): cannot relate it to the removal", c.loc)
+            continue
+        fs = pfl.facts_at(c.bb)
+        ok = any(existed_fact(x) for x in fs) or any(a[0] == "true" and t and a[1][0] == "var" and not a[1][2] and a[1][1] in flags for (a, t) in fs)
+        if ok:
+            r3.ok(key, "dominated by the lookup/removal having found the session", c.loc)
+        else:
+            r3.violation(key, "a close-session packet for an (endpoint, TSI) without a live session (repeated close packet, late joiner, "
+                              "expired session) makes listeners see on_session_closed without a matching on_session_open", c.loc)
+    r3.floor(5, "open site + removal sites + close guard")
 
     # ---- R4 ----------------------------------------------------------------------------------
     r4 = ctx.rule("C18.R4", "TSIFilter::{add_endpoint_bypass, remove_endpoint_bypass} and TSI::{add, remove} share one shape: "
